@@ -608,6 +608,7 @@ func (x *Exec) cellWrittenIn(a *ssa.Alloc, l *Loop, sameFrame bool) bool {
 // lookupPhi resolves a name to the loop-carried value of a loop that is currently cut:
 // a phi whose comment is the name, or a range key (rangeindex+1 = number of elements done).
 func (x *Exec) lookupPhi(fr *Frame, name string, st *State) (Val, bool) {
+	name = x.P.localAlias(fr.fn, name)
 	li := x.P.loopInfo(fr.fn)
 	cur := fr.curLoop
 	if cur == nil {
@@ -684,6 +685,7 @@ func (x *Exec) lookupPhi(fr *Frame, name string, st *State) (Val, bool) {
 
 // lookupLocal resolves a source-level local variable name to its current value.
 func (x *Exec) lookupLocal(fr *Frame, name string, st *State) (Val, bool) {
+	name = x.P.localAlias(fr.fn, name)
 	// 0. an address-taken variable (captured by a closure, or &v): its cell is authoritative
 	if al := allocNamed(fr, name); al != nil {
 		if pv, ok := fr.vals[al]; ok && pv.K == KPtr && pv.Ptr != nil {
